@@ -5,15 +5,246 @@ import subprocess
 import time
 from concurrent.futures import ThreadPoolExecutor
 
-from . import build, runner, evlog
+from . import build, runner, evlog, loopgen
 from . import loop_oracle as LO
 
 NCPU = os.cpu_count() or 4
 
 
+def merge(dst, src):
+    for k, v in src.items():
+        if isinstance(v, (int, float)) and isinstance(dst.get(k, 0), (int, float)):
+            dst[k] = dst.get(k, 0) + v
+        else:
+            dst[k] = v
+
+
+# ---------------------------------------------------------------------------
+# Miri
+# ---------------------------------------------------------------------------
+
+MIRI_ERR = re.compile(r"^error: (.*)$", re.M)
+
+
+def classify_miri(stderr):
+    """Returns (kind, first_line, location) for a Miri diagnostic, or None."""
+    m = None
+    for mm in MIRI_ERR.finditer(stderr):
+        txt = mm.group(1)
+        if txt.startswith("aborting due to") or txt.startswith("could not compile"):
+            continue
+        m = mm
+        break
+    if m is None:
+        return None
+    txt = m.group(1)
+    rest = stderr[m.end():m.end() + 3000]
+    loc = re.search(r"-->\s+(\S+?):(\d+)", rest)
+    where = (loc.group(1).replace(build.REPO, "<repo>") + ":" + loc.group(2)) if loc else "?"
+    low = txt.lower()
+    if "deadlock" in low:
+        kind = "deadlock"
+    elif "data race" in low:
+        kind = "data_race"
+    elif "memory leaked" in low or "leaked" in low:
+        kind = "leak"
+    elif "main thread terminated without waiting" in low:
+        kind = "threads_alive_at_exit"
+    elif "undefined behavior" in low:
+        kind = "ub"
+    elif "unsupported operation" in low:
+        kind = "unsupported"
+    else:
+        kind = "other"
+    return kind, txt[:300], where
+
+
+def miri_run(binname, args, flags, timeout):
+    hdir = build.harness_dir()
+    t0 = time.time()
+    try:
+        p = subprocess.run(build.miri_cmd(binname, args), cwd=hdir, env=build.miri_env(flags), stdout=subprocess.PIPE,
+                           stderr=subprocess.PIPE, timeout=timeout)
+        return p.returncode, p.stdout.decode("utf-8", "replace"), p.stderr.decode("utf-8", "replace"), False, time.time() - t0
+    except subprocess.TimeoutExpired as e:
+        return None, (e.stdout or b"").decode("utf-8", "replace"), (e.stderr or b"").decode("utf-8", "replace"), True, time.time() - t0
+
+
+def miri_lines(prop, binname, lines, out, flags="", timeout=900, jobs=None, judge=None, per_process=1, ignore_leaks_if=lambda l: "panic=" in l,
+               sig_prefix=None):
+    """Runs each configuration line in its own interpreter process (or small groups)."""
+    build.miri_prebuild(binname)
+    groups = [lines[i:i + per_process] for i in range(0, len(lines), per_process)]
+    stats = {"miri_processes": 0, "miri_clean": 0, "miri_seconds": 0.0}
+
+    def one(group):
+        fl = flags
+        if any(ignore_leaks_if(l) for l in group):
+            fl += " -Zmiri-ignore-leaks"
+        args = []
+        for l in group:
+            args += ["--line", l]
+        return group, miri_run(binname, args, fl.strip(), timeout)
+
+    with ThreadPoolExecutor(max_workers=jobs or NCPU) as ex:
+        results = list(ex.map(one, groups))
+    all_runs = []
+    for group, (rc, so, se, timed_out, wall) in results:
+        stats["miri_processes"] += 1
+        stats["miri_seconds"] += wall
+        if timed_out:
+            out.inconclusive_shard("miri watchdog (%ds) on %s" % (timeout, group[0]))
+            continue
+        diag = classify_miri(se)
+        if rc != 0:
+            if diag is None:
+                out.inconclusive_shard("miri exited %s without a diagnostic on %s: %s" % (rc, group[0], se[-300:].replace("\n", " | ")))
+                continue
+            kind, txt, where = diag
+            if kind == "unsupported":
+                out.inconclusive_shard("miri: unsupported operation on %s: %s" % (group[0], txt))
+                continue
+            out.violation("%s:miri:%s:%s" % (sig_prefix or prop, kind, where), "Miri: %s (at %s)" % (txt, where),
+                          {"engine": "miri", "bin": binname, "cfg": group[0], "flags": flags, "stderr": se[-3000:]})
+            continue
+        stats["miri_clean"] += 1
+        runs, done = evlog.parse_runs(so)
+        if not done:
+            out.inconclusive_shard("miri run produced incomplete output on %s" % group[0])
+            continue
+        all_runs.extend(runs)
+    if judge is not None:
+        judge(all_runs)
+    return stats, all_runs
+
+
+def miri_loop(prop, lines, out, flags="", checks=None, timeout=900, jobs=None):
+    """loopdrv under Miri, judged by the property's oracles as well as by the interpreter."""
+    from . import loopcheck
+    checks = checks or LO.ALL_CHECKS[prop]
+
+    class Sh:
+        pass
+
+    def judge(runs):
+        sh = runner.ShardResult()
+        sh.runs, sh.done, sh.returncode = runs, True, 0
+        agg = loopcheck.judge_runs(prop, [sh], out, checks=checks, engine="miri")
+        merge(out.extra.setdefault("miri_observed", {}), agg)
+
+    stats, _ = miri_lines(prop, "loopdrv", lines, out, flags=flags, timeout=timeout, jobs=jobs, judge=judge)
+    prev = out.extra.get("miri", {})
+    for k, v in stats.items():
+        prev[k] = round(prev.get(k, 0) + v, 1)
+    out.extra["miri"] = prev
+    return stats
+
+
+# ---------------------------------------------------------------------------
+# ASan / TSan
+# ---------------------------------------------------------------------------
+
+def first_repo_frame(report):
+    for ln in report.split("\n"):
+        m = re.search(r"#\d+ 0x[0-9a-f]+ in (\S+) (\S+?):(\d+)", ln)
+        if m and (build.REPO + "/src" in m.group(2) or "/repo/src" in m.group(2)):
+            return "%s@%s:%s" % (m.group(1)[:60], os.path.basename(m.group(2)), m.group(3))
+    for ln in report.split("\n"):
+        m = re.search(r"#\d+ 0x[0-9a-f]+ in (\S+)", ln)
+        if m and ("divan" in m.group(1)):
+            return m.group(1)[:80]
+    return "?"
+
+
+def sanitizer_loop(prop, flavour, binname, lines, out, env_extra, timeout=900, nshards=None, judge_checks=None, marker=None):
+    """Runs a sanitizer build over the lines; any report is a violation keyed on its first in-repo frame."""
+    from . import loopcheck
+    bins = build.build(flavour, [binname])
+    env = dict(os.environ)
+    env.update(env_extra)
+    shards = runner.run_parallel(bins[binname], lines, nshards=nshards, timeout=timeout, env=env)
+    reports = 0
+    clean = 0
+    for sh in shards:
+        text = sh.stderr
+        bad = ("ERROR: AddressSanitizer" in text or "ERROR: LeakSanitizer" in text or "WARNING: ThreadSanitizer" in text)
+        if bad:
+            reports += 1
+            kind = "asan" if "AddressSanitizer" in text else ("lsan" if "LeakSanitizer" in text else "tsan")
+            m = re.search(r"(ERROR: AddressSanitizer: [^\n]*|ERROR: LeakSanitizer: [^\n]*|WARNING: ThreadSanitizer: [^\n]*)", text)
+            head = m.group(1) if m else kind
+            short = re.sub(r"0x[0-9a-f]+", "ADDR", head)
+            short = re.sub(r"\(pid=\d+\)", "", short)
+            n_done = len([r for r in sh.runs if r.complete])
+            culprit = sh.lines[n_done] if n_done < len(sh.lines) else sh.lines[-1]
+            out.violation("%s:%s:%s:%s" % (prop, kind, short[:60].strip(), first_repo_frame(text)), "%s on flavour %s" % (head, flavour),
+                          {"engine": flavour, "bin": binname, "cfg": culprit, "report": text[-4000:]})
+        elif not sh.conclusive:
+            out.inconclusive_shard("engine=%s shard: done=%s rc=%s timeout=%s stderr=%s" % (flavour, sh.done, sh.returncode, sh.timed_out, text[-300:].replace("\n", " | ")))
+        else:
+            clean += 1
+    if judge_checks is not None:
+        agg = loopcheck.judge_runs(prop, [s for s in shards if s.conclusive], out, checks=judge_checks, engine=flavour)
+        merge(out.extra.setdefault(flavour + "_observed", {}), agg)
+    out.extra[marker or flavour] = {"shards": len(shards), "clean_shards": clean, "shards_with_reports": reports,
+                                    "configs": len(lines), "runs_completed": sum(len([r for r in s.runs if r.complete]) for s in shards)}
+    return shards
+
+
+ASAN_ENV = {"ASAN_OPTIONS": "detect_leaks=1:halt_on_error=1:abort_on_error=0:detect_stack_use_after_return=1", "LSAN_OPTIONS": "report_objects=1"}
+ASAN_ENV_NOLEAK = {"ASAN_OPTIONS": "detect_leaks=0:halt_on_error=1:abort_on_error=0:detect_stack_use_after_return=1"}
+TSAN_ENV = {"TSAN_OPTIONS": "halt_on_error=1:second_deadlock_stack=1:report_signal_unsafe=0"}
+
+
 def c01_sanitizers(tier, seed, out):
-    pass
+    lines = loopgen.gen_c01(tier, seed + 1000)
+    if tier == "quick":
+        lines = lines[:300]
+    plain = [l for l in lines if "panic=" not in l]
+    panics = [l for l in lines if "panic=" in l]
+    sanitizer_loop("C01", "asan", "loopdrv", plain, out, ASAN_ENV, judge_checks=LO.ALL_CHECKS["C01"], marker="asan_lsan")
+    sanitizer_loop("C01", "asan", "loopdrv", panics, out, ASAN_ENV_NOLEAK, judge_checks=LO.ALL_CHECKS["C01"], marker="asan_panic_plans")
+    mlines = loopgen.gen_c01_miri(tier, seed)
+    miri_loop("C01", mlines, out)
+    out.require("miri_clean_processes", out.extra.get("miri", {}).get("miri_clean", 0), 8)
+    if tier == "thorough":
+        valgrind_loop("C01", [l for l in loopgen.gen_c01("quick", seed + 5)[:200] if "panic=" not in l], out)
 
 
-def miri_loop(prop, lines, out, seeds=1):
-    pass
+def c08_sanitizers(tier, seed, out):
+    lines = loopgen.gen_c08_order(tier, seed + 77)
+    lines = [l.replace("fplog=1", "fplog=0") for l in lines][: (24 if tier == "quick" else 300)]
+    # keep sleeps short under the sanitizer
+    sanitizer_loop("C08", "tsan", "loopdrv", lines, out, TSAN_ENV, marker="tsan")
+    mlines = []
+    for i, l in enumerate(loopgen.gen_c08_order("quick", seed + 5)):
+        c = evlog.parse_cfg(l)
+        if c.get("T") == "2":
+            c["n"] = "2"
+            c["s"] = "1" if i % 2 else "2"
+            c["fplog"] = "0"
+            c.pop("fpus", None)
+            c.pop("fpmask", None)
+            mlines.append(" ".join("%s=%s" % kv for kv in c.items()))
+    mlines = mlines[: (6 if tier == "quick" else 24)]
+    # a few panic scenarios as well: Miri reports a hang as "deadlock"
+    pl = [l for l in loopgen.gen_c08_panic("thorough", seed) if " T=2 " in l][: (4 if tier == "quick" else 20)]
+    miri_loop("C08", mlines, out, flags="-Zmiri-preemption-rate=0.1", checks=[LO.check_c08_order])
+    miri_lines("C08", "loopdrv", pl, out, flags="-Zmiri-preemption-rate=0.05")
+
+
+def valgrind_loop(prop, lines, out, timeout=1800):
+    bins = build.build("release", ["loopdrv"])
+    wrapper = ["valgrind", "--error-exitcode=97", "--leak-check=no", "-q"]
+    shards = runner.run_parallel(bins["loopdrv"], lines, nshards=NCPU, timeout=timeout, wrapper=wrapper)
+    reports = 0
+    for sh in shards:
+        if sh.returncode == 97 or "== Invalid" in sh.stderr or "uninitialised" in sh.stderr:
+            reports += 1
+            m = re.search(r"==\d+== ([A-Z][^\n]*)", sh.stderr)
+            head = m.group(1) if m else "valgrind error"
+            out.violation("%s:valgrind:%s" % (prop, re.sub(r"0x[0-9A-Fa-f]+", "ADDR", head)[:80]), head,
+                          {"engine": "valgrind", "bin": "loopdrv", "cfg": sh.lines[0], "report": sh.stderr[-4000:]})
+        elif not sh.conclusive:
+            out.inconclusive_shard("valgrind shard: rc=%s timeout=%s" % (sh.returncode, sh.timed_out))
+    out.extra["valgrind"] = {"shards": len(shards), "shards_with_reports": reports, "configs": len(lines)}
